@@ -40,6 +40,7 @@ inductive Repl
   | ret (v : Nat)        -- `Return(v)`
   | cb (k : Nat)         -- `Apply(func(a) { return a + k })`
   | cbo (k : Nat)        -- `Origin(&o).Apply(func(a) { return o(a) + k })` : callback calls the origin placeholder
+  | tab (v : Nat)        -- `Return(v).When(1).Return(v+1).When(2).Return(v+2)` : argument-dependent result table
   deriving DecidableEq, Repr, Inhabited
 
 /-- content of the 13 entry bytes of a location (targets) or of a placeholder body -/
@@ -165,6 +166,7 @@ def callAt (L : Layout) (s : St) (f a : Nat) : Option Nat :=
     | .reloc g => some (L.orig g a)
     | .jump (.ret v) => some v
     | .jump (.cb k) => some (a + k)
+    | .jump (.tab v) => some (if a = 1 then v + 1 else if a = 2 then v + 2 else v)
     | .jump (.cbo k) =>
       if allX s (L.pages (L.plh f)) then
         match s.text (L.plh f) with
@@ -273,5 +275,36 @@ def Mentions (L : Layout) (prog : Tid → List Sec) (t : Tid) (f : Loc) : Prop :
 /-- the hypothesis of the property: nobody writes what another thread touches -/
 def Disjoint (L : Layout) (prog : Tid → List Sec) : Prop :=
   ∀ t u f, t ≠ u → Writes L prog u f → ¬ Mentions L prog t f
+
+/-! ## builder-level programs (what the generator emits) -/
+
+/-- builder API operations: `mock` = `Func(f).Return/Apply/Origin().Apply` (mocker.go:88-97 applyByFunc → proxy.Func →
+    replaceFunc, then Guard.Apply); `chk` = the builder calls each of its own targets; `reset` = `Builder.Reset`
+    (builder.go:200-208: every mocker's Cancel → UnpatchWithLock, also for mockers that were cancelled before) -/
+inductive BOp
+  | mock (f : Loc) (r : Repl) (wo : Bool)
+  | chk
+  | reset
+  deriving DecidableEq, Repr, Inhabited
+
+def insertSorted (x : Nat) : List Nat → List Nat
+  | [] => [x]
+  | y :: ys => if x < y then x :: y :: ys else if x = y then y :: ys else y :: insertSorted x ys
+
+/-- sections of a builder program; `m` = targets in the builder's mocker map so far -/
+def compileOps (tg : List Loc) : List BOp → List Loc → List Sec
+  | [], _ => []
+  | .mock f r wo :: rest, m => [.replace f r wo, .apply f] ++ compileOps tg rest (insertSorted f m)
+  | .chk :: rest, m => tg.map (fun f => Sec.call f 3) ++ compileOps tg rest m
+  | .reset :: rest, m => m.map Sec.unpatch ++ compileOps tg rest m
+
+def mockedAfter : List BOp → List Loc → List Loc
+  | [], m => m
+  | .mock f _ _ :: rest, m => mockedAfter rest (insertSorted f m)
+  | _ :: rest, m => mockedAfter rest m
+
+/-- the program class of the generator: any operation sequence, then `reset` and a final check of all own targets -/
+def builderProg (tg : List Loc) (ops : List BOp) : List Sec :=
+  compileOps tg ops [] ++ ((mockedAfter ops []).map Sec.unpatch ++ tg.map (fun f => Sec.call f 3))
 
 end Conc
